@@ -21,7 +21,7 @@ def cases(pid):
         idx = {"mutants": []}
     for m in idx["mutants"]:
         if pid in m["property"].split(","):
-            out.append({"name": m["name"], "patch": os.path.join(VERIF, m["patch"]), "expect": m["expect"], "what": m.get("what", "")})
+            out.append({"name": m["name"], "patch": os.path.join(VERIF, m["patch"]) if m.get("patch") else None, "generator": m.get("generator"), "expect": m["expect"], "what": m.get("what", "")})
     sd = os.path.join(VERIF, "seeded")
     for d in sorted(os.listdir(sd)) if os.path.isdir(sd) else []:
         meta_p = os.path.join(sd, d, "meta.json")
@@ -51,9 +51,13 @@ def run_one(pid, case):
     try:
         repo = os.path.join(d, "repo")
         subprocess.check_call(["rsync", "-a", "--exclude", "target", "--exclude", ".git", "/repo/", repo + "/"])
-        r = subprocess.run(["git", "apply", "--whitespace=nowarn", case["patch"]], cwd=repo, capture_output=True, text=True)
-        if r.returncode != 0:
-            return dict(case, outcome="stale", detail="patch does not apply to the current tree")
+        if case.get("generator") == "cargo fmt":
+            # layout-only control generated from the current tree (never stale)
+            subprocess.run(["cargo", "fmt"], cwd=repo, capture_output=True, text=True)
+        else:
+            r = subprocess.run(["git", "apply", "--whitespace=nowarn", case["patch"]], cwd=repo, capture_output=True, text=True)
+            if r.returncode != 0:
+                return dict(case, outcome="stale", detail="patch does not apply to the current tree")
         env = dict(os.environ, STAM_REPO=repo, STAM_VERIF_NOEVIDENCE="1", STAM_VERIF_NOSELFTEST="1")
         r = subprocess.run([os.path.join(VERIF, "bin", "check"), pid, "--tier", "quick"], env=env, capture_output=True, text=True)
         v = [l for l in r.stdout.splitlines() if l.startswith("VIOLATION")]
